@@ -140,7 +140,8 @@ static ENV_LOCK: Mutex<()> = Mutex::new(());
 // the mock is not `synced` and the wait is extended anyway, but an undeserializable event leaves the connection up.
 const PATIENCE: Duration = Duration::from_millis(12000);
 const AFTER_SYNC: Duration = Duration::from_millis(2000); // ... and at least this long after the mock had delivered everything
-const HARD_CAP: Duration = Duration::from_millis(30000);
+const HARD_CAP: Duration = Duration::from_millis(45000);
+const STABLE_FOR: Duration = Duration::from_millis(5000); // a wrong offer is only recorded once it has not changed for this long
 const STEP_WAIT: Duration = Duration::from_millis(20000); // waiting for the client to (re)connect / ask for the LIST
 
 async fn run_history(line: usize, hist: &Value, dir: &str) -> Value {
@@ -210,6 +211,8 @@ async fn run_history(line: usize, hist: &Value, dir: &str) -> Value {
                     if !ts.iter().any(|t| t.identifier == name) {
                         missing += 1;
                     }
+                    // (a reader that looks very often, not one that takes a whole core away from the histories running next to this one)
+                    std::thread::sleep(Duration::from_micros(30));
                 }
                 (samples, missing)
             });
@@ -224,8 +227,14 @@ async fn run_history(line: usize, hist: &Value, dir: &str) -> Value {
         let mut synced_at: Option<Instant> = None;
         let mut got;
         let mut ok;
+        let mut last_got: Option<Offered> = None;
+        let mut last_change = Instant::now();
         loop {
             got = abstract_targets(&adapter.discover().await.unwrap_or_default());
+            if last_got.as_ref() != Some(&got) {
+                last_got = Some(got.clone());
+                last_change = Instant::now();
+            }
             let synced = mock.synced();
             if synced && synced_at.is_none() {
                 synced_at = Some(Instant::now());
@@ -240,7 +249,8 @@ async fn run_history(line: usize, hist: &Value, dir: &str) -> Value {
             }
             let el = t0.elapsed();
             let after_sync_ok = synced_at.map(|s| s.elapsed() >= AFTER_SYNC).unwrap_or(false);
-            if el >= HARD_CAP || (el >= PATIENCE && (after_sync_ok || !need_sync)) {
+            // give up on a WRONG value only when it has not moved for a while (a client that is still catching up is waited for)
+            if el >= HARD_CAP || (el >= PATIENCE && (after_sync_ok || !need_sync) && last_change.elapsed() >= STABLE_FOR) {
                 break;
             }
             tokio::time::sleep(Duration::from_millis(5)).await;
